@@ -185,6 +185,42 @@ func init() {
 		verifrtPath + ".Thorough": func(m *Machine, fr *frame, a []value) value { return m.eng.Thorough },
 		verifrtPath + ".Seed": func(m *Machine, fr *frame, a []value) value { return int64(m.eng.Seed) },
 		verifrtPath + ".Symbolic": func(m *Machine, fr *frame, a []value) value { return true },
+		verifrtPath + ".Yield": func(m *Machine, fr *frame, a []value) value { m.yield(); return nil },
+		verifrtPath + ".AtYield": func(m *Machine, fr *frame, a []value) value {
+			k := int(m.concretizeInt(a[0], intInfo{64, true}))
+			m.sch().atYield[m.sch().yields+k] = a[1]
+			return nil
+		},
+		verifrtPath + ".Quiesce": func(m *Machine, fr *frame, a []value) value {
+			// let every other task run until it finishes or blocks
+			s := m.sch()
+			for {
+				next := m.pickNext(s.cur)
+				if next == nil {
+					return nil
+				}
+				m.switchTo(next)
+			}
+		},
+		verifrtPath + ".QuiesceSteps": func(m *Machine, fr *frame, a []value) value {
+			// let the other tasks run for at most n synchronisation points
+			s := m.sch()
+			end := s.yields + int(a[0].(int64))
+			for s.yields < end {
+				next := m.pickNext(s.cur)
+				if next == nil {
+					return nil
+				}
+				m.switchTo(next)
+			}
+			return nil
+		},
+		verifrtPath + ".SchedBounds": func(m *Machine, fr *frame, a []value) value {
+			m.sch().maxPreempt = int(a[0].(int64))
+			m.sch().fairLimit = int(a[1].(int64))
+			return nil
+		},
+		verifrtPath + ".Yields": func(m *Machine, fr *frame, a []value) value { return int64(m.sch().yields) },
 		verifrtPath + ".ExpectTraps": func(m *Machine, fr *frame, a []value) value {
 			m.path.trapsExpected = true
 			return nil
@@ -223,6 +259,40 @@ func init() {
 			}
 			return m.call(fr, token.NoPos, nf, nil)
 		},
+		"(*sync.WaitGroup).Add": func(m *Machine, fr *frame, a []value) value {
+			p := a[0].(*value)
+			s := m.sch()
+			if s.wgCount == nil {
+				s.wgCount = map[*value]int64{}
+			}
+			s.wgCount[p] += a[1].(int64)
+			if s.wgCount[p] < 0 {
+				m.rtPanicPlain("sync: negative WaitGroup counter")
+			}
+			m.yield()
+			return nil
+		},
+		"(*sync.WaitGroup).Done": func(m *Machine, fr *frame, a []value) value {
+			p := a[0].(*value)
+			s := m.sch()
+			if s.wgCount == nil {
+				s.wgCount = map[*value]int64{}
+			}
+			s.wgCount[p]--
+			if s.wgCount[p] < 0 {
+				m.rtPanicPlain("sync: negative WaitGroup counter")
+			}
+			m.yield()
+			return nil
+		},
+		"(*sync.WaitGroup).Wait": func(m *Machine, fr *frame, a []value) value {
+			p := a[0].(*value)
+			s := m.sch()
+			m.blockUntil(func() bool { return s.wgCount[p] == 0 })
+			return nil
+		},
+		"time.Sleep": func(m *Machine, fr *frame, a []value) value { m.yield(); return nil },
+		"time.After": func(m *Machine, fr *frame, a []value) value { return &Chan{cap: 1} },
 		"sync.runtime_registerPoolCleanup": nop,
 		"sync.runtime_notifyListCheck":     nop,
 		"sync.throw": func(m *Machine, fr *frame, a []value) value {
@@ -603,14 +673,19 @@ func (p *Path) evalObservations(mdl Model) []string {
 
 // ---- atomics ----
 
-func atomicLoad(m *Machine, fr *frame, a []value) value { return m.loadAny(a[0]) }
+func atomicLoad(m *Machine, fr *frame, a []value) value {
+	m.softYield()
+	return m.loadAny(a[0])
+}
 func atomicStore(m *Machine, fr *frame, a []value) value {
 	m.storeAny(a[0], a[1])
+	m.yield()
 	return nil
 }
 func atomicSwap(m *Machine, fr *frame, a []value) value {
 	old := m.loadAny(a[0])
 	m.storeAny(a[0], a[1])
+	m.yield()
 	return old
 }
 func atomicAdd(ii intInfo) externalFn {
